@@ -81,7 +81,7 @@ TX == /\ IsEv("X") /\ Consume
 TProcs == IsEv("ProcsOpen") /\ Consume /\ ProcsOpen(Ev.p, SeqToSet(Ev.pids))
 \* the 1 s breather between rounds shows up as a later timestamp on the next kill
 TKill == IsEv("Kill") /\ Consume /\ Ev.t = know /\ Signal(Ev.pid, Ev.sig, Ev.ok)
-TClock == /\ l <= N /\ Ev.e \in {"Kill", "KRet"} /\ Ev.t > know /\ kph \in {"attempt", "ret"}
+TClock == /\ l <= N /\ Ev.e \in {"Kill", "KRet", "HookFire", "HookPoll"} /\ Ev.t > know /\ kph \notin {"idle", "over"}
           /\ KClock(Ev.t) /\ UNCHANGED l
 TReap == IsEv("Reap") /\ Consume /\ Reap(Ev.pid)
 TCtl == /\ IsEv("CtlWrite") /\ Consume
